@@ -10,6 +10,7 @@ wt=/tmp/sv_$id
 git -C /repo worktree remove --force $wt 2>/dev/null
 git -C /repo worktree add -q --detach $wt HEAD
 export GOFLAGS=-mod=mod GOPROXY=off
+export VERIF_EVIDENCE_DIR=/tmp/sv_evidence_$id; mkdir -p $VERIF_EVIDENCE_DIR
 res="$dst/verify.txt"; : > $res
 ( cd $wt && git apply $dst/patch.diff ) || { echo "patch does not apply" | tee -a $res; git -C /repo worktree remove --force $wt; exit 1; }
 ( cd $wt && go build ./... && go test -vet=off -count=1 ./... 2>&1 | grep -v "no test files" | tail -4 ) > $res.suite 2>&1
@@ -39,3 +40,4 @@ fi
 tail -1 $dst/check_$tier.txt | tee -a $res
 grep -c "^VIOLATION" $dst/check_$tier.txt | sed 's/^/VIOLATION lines: /' | tee -a $res
 grep "^VIOLATION\|^ENGINE-MISMATCH\|^INCONCLUSIVE" $dst/check_$tier.txt | cut -c1-260 | sort -u | head -5
+rm -rf $VERIF_EVIDENCE_DIR
